@@ -29,47 +29,49 @@ ExpectedRowCell(c, rep, r, k) ==
 \* unvalued reports multiply by the quantity scale only; valued ones are at scale S
 Complete(c) == c.flags.acctAll /\ c.flags.commAll /\ \A n \in 1..Len(c.flags.map) : c.flags.map[n].level # 0
 
-JudgeBalance(c) ==
+WhyBalance(c) ==
   LET fin == Run(c)
       dirs == Expanded(c)
       ps == Periods(c, dirs)
       np == Len(ps)
-  IN IF Failed(fin) THEN c.obs.exit # 0 /\ c.obs.empty
-     ELSE
-       /\ c.obs.exit = 0
-       /\ c.obs.cols = [k \in 1..np |-> ps[k].e]
-       \* rows: exactly the inserted accounts and their ancestors
-       /\ {c.obs.rows[n].a : n \in ObsRows(c, {"AL", "EIE"})} = RowSet(c, fin.rep)
-       /\ \A n \in ObsRows(c, {"AL"}) : IsALRow(c, c.obs.rows[n].a)
-       /\ \A n \in ObsRows(c, {"EIE"}) : ~IsALRow(c, c.obs.rows[n].a)
-       \* every shown cell equals the model's
-       /\ \A n \in 1..Len(c.obs.rows) : \A k \in 1..np :
-             c.obs.rows[n].x[k] = ExpectedRowCell(c, fin.rep, c.obs.rows[n], k)
-       \* nothing non-zero is missing
-       /\ \A a \in Accts(c) : \A cc \in Comms(c) : \A k \in 1..np :
-             Cell(c, fin.rep, a, cc, k) # 0 =>
-                \E n \in ObsRows(c, {"AL", "EIE"}) :
-                   c.obs.rows[n].a = a /\ (c.obs.rows[n].c = cc \/ (Valued(c) /\ c.obs.rows[n].c = ""))
-       \* C01: complete reports net to zero, in the model and in the observation
-       /\ Complete(c) =>
-             /\ \A cc \in Comms(c) : \A k \in 1..np : DeltaCell(c, fin.rep, cc, k) = 0
-             /\ \A n \in ObsRows(c, {"Delta"}) : \A k \in 1..np : c.obs.rows[n].x[k] = 0
-       \* hidden amounts appear only in Delta
-       /\ ~Complete(c) /\ c.flags.acctAll /\ c.flags.commAll =>
-             \A cc \in Comms(c) : \A k \in 1..np : DeltaCell(c, fin.rep, cc, k) = -HiddenRaw(c, fin.rep, cc, k)
-       \* C02: the declarative sum (unvalued, no closing)
-       /\ (~Valued(c) /\ ~c.flags.close) =>
-             \A n \in ObsRows(c, {"AL", "EIE"}) : \A k \in 1..np :
-                c.obs.rows[n].c # "" => c.obs.rows[n].x[k] = RefCellNoClose(c, c.obs.rows[n].a, c.obs.rows[n].c, k)
+  IN IF Failed(fin) THEN (IF c.obs.exit # 0 /\ c.obs.empty THEN "ok" ELSE "model-fails-but-knut-printed-a-report")
+     ELSE IF c.obs.exit # 0 THEN "knut-failed-but-model-succeeds"
+     ELSE IF c.obs.bad THEN "unreadable-output"
+     ELSE IF c.obs.cols # [k \in 1..np |-> ps[k].e] THEN "columns"
+     \* rows: exactly the inserted accounts and their ancestors
+     ELSE IF {c.obs.rows[n].a : n \in ObsRows(c, {"AL", "EIE"})} # RowSet(c, fin.rep) THEN "row-set"
+     ELSE IF ~(\A n \in ObsRows(c, {"AL"}) : IsALRow(c, c.obs.rows[n].a)) THEN "row-section"
+     ELSE IF ~(\A n \in ObsRows(c, {"EIE"}) : ~IsALRow(c, c.obs.rows[n].a)) THEN "row-section"
+     \* every shown cell equals the model's
+     ELSE IF ~(\A n \in 1..Len(c.obs.rows) : \A k \in 1..np :
+                 c.obs.rows[n].x[k] = ExpectedRowCell(c, fin.rep, c.obs.rows[n], k)) THEN "cell"
+     \* nothing non-zero is missing
+     ELSE IF ~(\A a \in Accts(c) : \A cc \in Comms(c) : \A k \in 1..np :
+                 Cell(c, fin.rep, a, cc, k) # 0 =>
+                    \E n \in ObsRows(c, {"AL", "EIE"}) :
+                       c.obs.rows[n].a = a /\ (c.obs.rows[n].c = cc \/ (Valued(c) /\ c.obs.rows[n].c = ""))) THEN "missing-row"
+     \* C01: complete reports net to zero, in the model and in the observation
+     ELSE IF Complete(c) /\ ~(\A cc \in Comms(c) : \A k \in 1..np : DeltaCell(c, fin.rep, cc, k) = 0) THEN "model-delta-nonzero"
+     ELSE IF Complete(c) /\ ~(\A n \in ObsRows(c, {"Delta"}) : \A k \in 1..np : c.obs.rows[n].x[k] = 0) THEN "delta-nonzero"
+     \* hidden amounts appear only in Delta
+     ELSE IF ~Complete(c) /\ c.flags.acctAll /\ c.flags.commAll
+             /\ ~(\A cc \in Comms(c) : \A k \in 1..np : DeltaCell(c, fin.rep, cc, k) = -HiddenRaw(c, fin.rep, cc, k)) THEN "hidden-not-in-delta"
+     \* C02: the declarative sum (unvalued, no closing)
+     ELSE IF ~Valued(c) /\ ~c.flags.close
+             /\ ~(\A n \in ObsRows(c, {"AL", "EIE"}) : \A k \in 1..np :
+                    c.obs.rows[n].c # "" => c.obs.rows[n].x[k] = RefCellNoClose(c, c.obs.rows[n].a, c.obs.rows[n].c, k)) THEN "declarative-sum"
+     ELSE "ok"
 
-Judge(c) ==
-  CASE c.kind = "check" -> JudgeCheck(c)
-    [] c.kind = "balance" -> JudgeBalance(c)
+WhyCheck(c) == IF JudgeCheck(c) THEN "ok" ELSE "verdict-or-diagnostic"
+
+Why(c) ==
+  CASE c.kind = "check" -> WhyCheck(c)
+    [] c.kind = "balance" -> WhyBalance(c)
 
 Init == i = 1 /\ failed = << >>
 Next == /\ i <= Len(Cases)
         /\ i' = i + 1
-        /\ failed' = IF Judge(Cases[i]) THEN failed ELSE Append(failed, Cases[i].id)
+        /\ failed' = LET w == Why(Cases[i]) IN IF w = "ok" THEN failed ELSE Append(failed, [id |-> Cases[i].id, why |-> w])
 Spec == Init /\ [][Next]_<<i, failed>>
 Report == i <= Len(Cases) \/ PrintT("FAILED " \o ToJson(failed))
 =============================================================================
